@@ -105,7 +105,7 @@ func (a answer) term() string {
 }
 
 type ev struct {
-	kind  string // req | watch | fail
+	kind  string // req | watch | fail | abandon
 	r     uint64
 	known bool
 }
@@ -116,6 +116,8 @@ func (e ev) term() string {
 		return fmt.Sprintf("HReq %d %s", e.r, emit.Bool(e.known))
 	case "watch":
 		return fmt.Sprintf("HWatch %d", e.r)
+	case "abandon":
+		return fmt.Sprintf("HAbandon %d", e.r)
 	}
 	return "HFail"
 }
@@ -204,6 +206,24 @@ func runCase(evs []ev) ([][]answer, error) {
 				reqCancel()
 				return nil, fmt.Errorf("watch item not consumed")
 			}
+		case "abandon":
+			// the request parks (it asks for latest+1), then its client goes away
+			actx, acancel := context.WithCancel(context.Background())
+			adone := make(chan struct{})
+			go func() {
+				defer close(adone)
+				rec := httptest.NewRecorder()
+				req := httptest.NewRequest(http.MethodGet, fmt.Sprintf("/%s/public/%d", hash, e.r), nil).WithContext(actx)
+				h.GetHTTPHandler().ServeHTTP(rec, req)
+			}()
+			time.Sleep(15 * time.Millisecond)
+			acancel()
+			select {
+			case <-adone:
+			case <-time.After(3 * time.Second):
+				reqCancel()
+				return nil, fmt.Errorf("abandoned request did not return")
+			}
 		case "fail":
 			n := cl.nStreams()
 			close(cl.cur())
@@ -232,6 +252,9 @@ func Run(out string, seed int64, tier string) error {
 		{{kind: "watch", r: 5}, {kind: "req", r: 6, known: true}, {kind: "fail"}, {kind: "watch", r: 8}},
 		{{kind: "watch", r: 5}, {kind: "req", r: 6, known: true}, {kind: "watch", r: 7}},
 		{{kind: "watch", r: 5}, {kind: "req", r: 6, known: true}, {kind: "req", r: 3, known: true}, {kind: "watch", r: 6}},
+		// a parked request whose client goes away, alone and next to another waiter, then the round arrives
+		{{kind: "watch", r: 5}, {kind: "abandon", r: 6}, {kind: "watch", r: 6}, {kind: "req", r: 7, known: true}, {kind: "watch", r: 7}},
+		{{kind: "watch", r: 5}, {kind: "req", r: 6, known: true}, {kind: "abandon", r: 6}, {kind: "req", r: 6, known: true}, {kind: "watch", r: 6}, {kind: "abandon", r: 7}, {kind: "watch", r: 7}},
 	}
 	var lines, descr []string
 	total := ncases + len(corpus)
@@ -254,6 +277,8 @@ func Run(out string, seed int64, tier string) error {
 					}
 					evs = append(evs, ev{kind: "watch", r: nr})
 					latest, head = nr, nr
+				case x < 5 && latest != 0:
+					evs = append(evs, ev{kind: "abandon", r: latest + 1})
 				case x < 9:
 					r := latest + 1
 					known := false
